@@ -354,7 +354,8 @@ def decide(pid, tier, only_obligation=None):
             path = write_replay(pid, ob, ob["_unit"], pb)
             violations.append((ob, path, pb))
         ev = build_evidence(pid, pcfg, tier, unit_outs, obligations, violations, known_hits, time.time() - t0)
-        write_evidence(pid, ev)
+        if not only_obligation:      # a replay re-verifies one obligation; it must not overwrite the evidence
+            write_evidence(pid, ev)
         for ob, kf in known_hits:
             print(f"KNOWN-FINDING: property={pid} {ob['name']} {kf['what']}")
         for ob, path, pb in violations:
